@@ -54,6 +54,7 @@ type gfModule struct{ Path, Go string }
 var gfModules = map[string]gfModule{
 	"go1.24":      {"example.com/m", "1.24"},
 	"go1.18":      {"example.com/m", "1.18"},
+	"go1.20":      {"example.com/m", "1.20"},   // a directive that ends in a zero
 	"go1.24.2":    {"example.com/m", "1.24.2"}, // a three-part go directive
 	"go1.21local": {"m", "1.21"},               // a module path without a dot: its packages look like std to an import grouper that ignores ModulePath
 	// the module is one of two in a go.work workspace; the other one (go 1.12, another path) is generated first in the same Execute
@@ -540,9 +541,31 @@ func genfileBatch(self, modName string, idx []int, parsed []gfCase, obsOf, concO
 		js, _ := json.Marshal(script)
 		longBodies[k] = "SCRIPT:" + string(js)
 	}
+	// ... except for every fourth case: there the earlier generation rendered exactly the same, and the file was then touched in
+	// its surrounding white space only (final newline gone, blank lines in front and behind) - the judged run must repair it
+	tampered := map[int]bool{}
+	for _, i := range idx {
+		declaresType := false // (a type declared by the earlier generation would be a type of the package in the judged run)
+		for _, f := range parsed[i].Frags {
+			declaresType = declaresType || f.Kind == "type"
+		}
+		if i%4 == 0 && !declaresType {
+			tampered[i] = true
+			for _, ty := range []string{"T1", "T2"} {
+				k := mod.Path + "/" + fmt.Sprintf("c%d", i) + "|a|" + ty
+				longBodies[k] = realBodies[k]
+			}
+		}
+	}
 	bodies = longBodies
 	if _, err := run([]string{"./..."}, "pre"); err != nil {
 		return err
+	}
+	for i := range tampered {
+		fp := filepath.Join(root, fmt.Sprintf("c%d", i), pipe.Base+".a.go")
+		if data, err := os.ReadFile(fp); err == nil {
+			_ = os.WriteFile(fp, []byte("\n\n"+strings.TrimRight(string(data), "\n")+"\n\n\n"), 0o644)
+		}
 	}
 	bodies = realBodies
 	res, err := run([]string{"./..."}, "all")
